@@ -91,11 +91,21 @@ class SimLock:
         return self._owner is not None
 
 
-def lock_factory():
+def _from_threading_internals():
+    # threading's own machinery (Thread, Event, Condition ...) must keep real locks
+    f = sys._getframe(2)
+    return f.f_globals.get("__name__") in ("threading", "concurrent.futures.thread", "queue", "multiprocessing")
+
+
+def lock_factory(*a, **k):
+    if _from_threading_internals():
+        return _real_allocate()
     return SimLock(False)
 
 
-def rlock_factory():
+def rlock_factory(*a, **k):
+    if _from_threading_internals():
+        return _real_RLock()
     return SimLock(True)
 
 
